@@ -12,16 +12,19 @@
 //
 // Protocol (fields separated by one space; byte strings hex, "-" = empty string):
 //
-//	req <srvT> <cih> <strict> <hT> <omit> <remote> <tls> <host> <hdrs> <tbl> <fails> <hops>
+//	req <srvT> <cih> <strict> <hT> <omit> <remote> <tls> <host> <hdrs> <tbl> <fails> <hops> <mode>
 //
-//	srvT   nil | . | cidr,cidr,…      server trusted_proxies (nil = not configured, . = [])
+//	srvT   nil | . | cidr,cidr,…      server trusted_proxies (nil = not configured, . = []);
+//	       dyn:. | dyn:cidr,…         the same ranges served by a request-scoped IPRangeSource module:
+//	                                  ONE provisioned server answers every such case
 //	cih    nil | . | hex,hex,…        client_ip_headers (nil = not configured → default)
 //	strict 0|1|2                      trusted_proxies_strict
 //	hT     . | cidr,cidr,…            reverse_proxy trusted_proxies
 //	omit   three bits                 XFF/XFP/XFH set to nil by the probe before reverse_proxy
 //	remote hex                        r.RemoteAddr
-//	tls    0|1|2                      0 plain, 1 r.TLS set, 2 r.TLS nil but the connection in the context
-//	                                  (ConnCtxKey) reports a TLS state — Server.ServeHTTP recovers it
+//	tls    0|1|2|3                    0 plain, 1 r.TLS set, 2 r.TLS nil but the connection in the context
+//	                                  (ConnCtxKey) reports a TLS state — Server.ServeHTTP recovers it,
+//	                                  3 r.TLS set with the handshake not complete (0-RTT early data)
 //	host   hex                        r.Host
 //	hdrs   . | name:value;…           request header fields in wire order (hex:hex)
 //	tbl    . | sub:canon:sbits:hbits:fbits;…  netip's answers: every '%'-free substring of remote /
@@ -32,6 +35,9 @@
 //	                                  the upstream down, reverse_proxy (load_balancing.retries 3) retries
 //	hops   0|1|2                      reverse_proxy request header ops (header_up): none | set an unrelated
 //	                                  field from an upstream placeholder | delete X-Forwarded-Host
+//
+//	mode   0|1                        0 GET over HTTP/1.1, 1 websocket over HTTP/2 (extended CONNECT,
+//	                                  `:protocol: websocket`): ServeHTTP rewrites the prepared request
 //
 // Answer: "ip=<hex> tp=<0|1> ph=<hex> lg=<hex> cm=<0|1> rm=<0|1> pp=<hex>/<port>|invalid xff=<H> xfp=<H> xfh=<H>"
 //
@@ -79,9 +85,10 @@ type obs struct {
 	clientIP  string
 	trusted   bool
 	sent      bool
-	out       http.Header   // the attempt that succeeded (the last one)
-	attempts  []http.Header // every attempt handed to the transport, in order
-	failLeft  int           // round trips that still have to fail (upstream "down")
+	out       http.Header    // the attempt that succeeded (the last one)
+	attempts  []http.Header  // every attempt handed to the transport, in order
+	failLeft  int            // round trips that still have to fail (upstream "down")
+	dynRanges []netip.Prefix // what the request-scoped IPRangeSource answers for this request
 	outHost   string
 	matchedIP bool   // real `client_ip` matcher over matcherRanges
 	remoteHit bool   // real `remote_ip` matcher over the same ranges
@@ -173,6 +180,21 @@ func (tlsStateConn) ConnectionState() tls.ConnectionState {
 	return tls.ConnectionState{HandshakeComplete: true, Version: tls.VersionTLS13}
 }
 
+// DynSource is an IPRangeSource whose answer depends on the request (its context): the interface
+// server.go consumes, with ranges that differ from request to request on ONE provisioned server.
+type DynSource struct{}
+
+func (DynSource) CaddyModule() caddy.ModuleInfo {
+	return caddy.ModuleInfo{ID: "http.ip_sources.verif_c10", New: func() caddy.Module { return new(DynSource) }}
+}
+
+func (DynSource) GetIPRanges(r *http.Request) []netip.Prefix {
+	if o, ok := r.Context().Value(obsKey{}).(*obs); ok {
+		return o.dynRanges
+	}
+	return nil
+}
+
 var errUpstreamDown = fmt.Errorf("verif: upstream down")
 
 var registerOnce sync.Once
@@ -181,6 +203,7 @@ func register() {
 	registerOnce.Do(func() {
 		caddy.RegisterModule(&Probe{})
 		caddy.RegisterModule(Capture{})
+		caddy.RegisterModule(DynSource{})
 	})
 }
 
@@ -191,6 +214,7 @@ type hdrField struct{ name, value string }
 type kase struct {
 	srvT    []string // nil = not configured
 	srvTNil bool
+	srvDyn  bool // the ranges come from a request-scoped IPRangeSource module (one server, changing ranges)
 	cih     []string
 	cihNil  bool
 	strict  int
@@ -198,11 +222,13 @@ type kase struct {
 	omit    [3]bool
 	remote  string
 	tls     bool
+	early   bool // r.TLS set but the handshake is not complete: the request arrived as 0-RTT data
 	tlsConn bool // r.TLS is nil; the TLS state is only known through the connection in the context (listener wrappers)
 	host    string
 	hdrs    []hdrField
 	tbl     string // as given on the line ("" when the line is being built)
 	fails   int    // 0..2 round trips fail before one succeeds (proxy retry loop)
+	mode    int    // 0 plain GET over HTTP/1.1, 1 websocket over HTTP/2 (extended CONNECT with :protocol)
 	hops    int    // request header ops of reverse_proxy: 0 none, 1 set an unrelated field, 2 delete X-Forwarded-Host
 }
 
@@ -286,19 +312,27 @@ func (k *kase) line() string {
 	if k.tlsConn {
 		tl = 2
 	}
-	return fmt.Sprintf("req %s %s %d %s %s %s %d %s %s %s %d %d",
-		listField(k.srvT, k.srvTNil, false), listField(k.cih, k.cihNil, true), k.strict,
-		listField(k.hT, false, false), omit, core.Hex(k.remote), tl, core.Hex(k.host), hd, k.table(), k.fails, k.hops)
+	if k.early {
+		tl = 3
+	}
+	return fmt.Sprintf("req %s %s %d %s %s %s %d %s %s %s %d %d %d",
+		k.srvField(), listField(k.cih, k.cihNil, true), k.strict,
+		listField(k.hT, false, false), omit, core.Hex(k.remote), tl, core.Hex(k.host), hd, k.table(), k.fails, k.hops, k.mode)
 }
 
 func parseLine(line string) (*kase, bool) {
 	f := strings.Fields(line)
-	if len(f) != 13 || f[0] != "req" {
+	if len(f) != 14 || f[0] != "req" {
 		return nil, false
 	}
 	k := &kase{}
 	var ok bool
-	if k.srvT, k.srvTNil, ok = parseListField(f[1], true, false); !ok {
+	if strings.HasPrefix(f[1], "dyn:") {
+		k.srvDyn = true
+		if k.srvT, _, ok = parseListField(f[1][4:], false, false); !ok {
+			return nil, false
+		}
+	} else if k.srvT, k.srvTNil, ok = parseListField(f[1], true, false); !ok {
 		return nil, false
 	}
 	if k.cih, k.cihNil, ok = parseListField(f[2], true, true); !ok {
@@ -335,6 +369,8 @@ func parseLine(line string) (*kase, bool) {
 		k.tls = true
 	case "2":
 		k.tls, k.tlsConn = true, true
+	case "3":
+		k.tls, k.early = true, true
 	default:
 		return nil, false
 	}
@@ -356,6 +392,13 @@ func parseLine(line string) (*kase, bool) {
 		}
 	}
 	k.tbl = f[10]
+	switch f[13] {
+	case "0":
+	case "1":
+		k.mode = 1
+	default:
+		return nil, false
+	}
 	for i, dst := range []*int{&k.fails, &k.hops} {
 		switch f[11+i] {
 		case "0", "1", "2":
@@ -567,13 +610,27 @@ var fixedPrefixes = func() []netip.Prefix {
 // matcherRanges is what the probe's `client_ip` and `remote_ip` matchers are configured with:
 // the server's ranges, the handler's ranges, then fixedRanges.
 func (k *kase) matcherRanges() []string {
-	out := append([]string{}, k.srvT...)
+	out := []string{}
+	if !k.srvDyn {
+		out = append(out, k.srvT...)
+	}
 	out = append(out, k.hT...)
 	return append(out, fixedRanges...)
 }
 
+func (k *kase) srvField() string {
+	if k.srvDyn {
+		return "dyn:" + listField(k.srvT, false, false)
+	}
+	return listField(k.srvT, k.srvTNil, false)
+}
+
 func (k *kase) cfgKey() string {
-	return fmt.Sprintf("%s|%s|%d|%s|%v|%d", listField(k.srvT, k.srvTNil, false), listField(k.cih, k.cihNil, true), k.strict,
+	srv := k.srvField()
+	if k.srvDyn {
+		srv = "dyn" // one provisioned server serves every range set
+	}
+	return fmt.Sprintf("%s|%s|%d|%s|%v|%d", srv, listField(k.cih, k.cihNil, true), k.strict,
 		listField(k.hT, false, false), k.omit, k.hops)
 }
 
@@ -588,7 +645,9 @@ func (p *prop) server(k *kase) (*caddyhttp.Server, error) {
 		"listen":          []string{},
 		"automatic_https": map[string]any{"disable": true},
 	}
-	if !k.srvTNil {
+	if k.srvDyn {
+		srv["trusted_proxies"] = map[string]any{"source": "verif_c10"}
+	} else if !k.srvTNil {
 		srv["trusted_proxies"] = map[string]any{"source": "static", "ranges": k.srvT}
 	}
 	if !k.cihNil {
@@ -695,10 +754,22 @@ func (p *prop) serve(k *kase, hdrs []hdrField) (string, *obs, error) {
 		h.Add(f.name, f.value)
 	}
 	o := &obs{failLeft: k.fails}
+	if k.srvDyn {
+		o.dynRanges, _ = parsePrefixes(k.srvT)
+		if o.dynRanges == nil {
+			o.dynRanges = []netip.Prefix{}
+		}
+	}
 	r := &http.Request{
 		Method: "GET", URL: &url.URL{Path: "/"}, RequestURI: "/",
 		Proto: "HTTP/1.1", ProtoMajor: 1, ProtoMinor: 1,
 		Header: h, Host: k.host, RemoteAddr: k.remote, Body: http.NoBody,
+	}
+	if k.mode == 1 {
+		// RFC 8441 extended CONNECT: reverse_proxy's ServeHTTP rewrites the prepared clone into an
+		// HTTP/1.1 websocket upgrade AFTER prepareRequest
+		r.Method, r.Proto, r.ProtoMajor, r.ProtoMinor = "CONNECT", "HTTP/2.0", 2, 0
+		h[":protocol"] = []string{"websocket"}
 	}
 	ctx := context.WithValue(context.Background(), obsKey{}, o)
 	if k.tlsConn {
@@ -706,7 +777,7 @@ func (p *prop) serve(k *kase, hdrs []hdrField) (string, *obs, error) {
 		// Server.ServeHTTP recovers r.TLS from the connection stored under ConnCtxKey
 		ctx = context.WithValue(ctx, caddyhttp.ConnCtxKey, tlsStateConn{})
 	} else if k.tls {
-		r.TLS = &tls.ConnectionState{HandshakeComplete: true, Version: tls.VersionTLS13}
+		r.TLS = &tls.ConnectionState{HandshakeComplete: !k.early, Version: tls.VersionTLS13}
 	}
 	r = r.WithContext(ctx)
 	w := httptest.NewRecorder()
